@@ -9,6 +9,7 @@ import (
 	"fmt"
 	"io"
 	"os"
+	"path/filepath"
 	"strconv"
 	"strings"
 	"sync/atomic"
@@ -149,6 +150,9 @@ type Cfg struct {
 	Globals        json.RawMessage `json:"globals"`        // name -> value, registered with Engine.AddGlobal (and not passed in the context)
 	// DenyList: the policy is not an allow-list but "everything except": what AllowF / AllowFn do NOT list among the
 	// names in Universe is forbidden, every other name (also names nobody registered) is allowed
+	// FSLoader: the templates are files below a scratch directory, served by a FileSystemLoader; the FaultLoad name is
+	// a directory there (reading it fails)
+	FSLoader bool     `json:"fsloader"`
 	DenyList bool     `json:"denylist"`
 	Universe []string `json:"universe"`
 	// ForeignTp: these templates are parsed by ANOTHER engine (same callbacks, no policy) and handed to the engine under
@@ -527,7 +531,27 @@ func renderRun(c *Case, r *Run, ctx map[string]interface{}) (o obs) {
 			e.RegisterLoader(twig.NewArrayLoader(map[string]string{}))
 		}
 		var l twig.Loader = twig.NewArrayLoader(srcs)
-		if c.Cfg.FaultLoad != "" {
+		if c.Cfg.FSLoader {
+			dir, err := os.MkdirTemp("", "verif-fs-")
+			if err != nil {
+				panic("harness: " + err.Error())
+			}
+			defer os.RemoveAll(dir)
+			for name, src := range srcs {
+				p := filepath.Join(dir, name)
+				os.MkdirAll(filepath.Dir(p), 0o755)
+				if c.Cfg.FaultLoad != "" && name == engineName(c.Cfg.FaultLoad) {
+					os.MkdirAll(p, 0o755)
+					continue
+				}
+				if err := os.WriteFile(p, []byte(src), 0o644); err != nil {
+					panic("harness: " + err.Error())
+				}
+			}
+			fl := twig.NewFileSystemLoader([]string{dir})
+			fl.SetSuffix("")
+			l = fl
+		} else if c.Cfg.FaultLoad != "" {
 			l = &faultLoader{inner: l, name: engineName(c.Cfg.FaultLoad)}
 		}
 		if r.Late != nil {
@@ -843,7 +867,13 @@ func short(s string) string {
 	return s
 }
 
+// fsFault: the case's loader failure is a file-system one (no sentinel to recognise): any error that is not "not found"
+var fsFault bool
+
 func errMatches(want, got string) bool {
+	if fsFault && want == "fault" {
+		return got != "" && got != "notfound" && got != "panic" && got != "hang"
+	}
 	switch want {
 	case "fault", "security", "notfound":
 		return got == want
@@ -862,6 +892,7 @@ func checkCase(c *Case, limit time.Duration) (res Result, hung bool) {
 		return
 	}
 	baseCalls := countsOf(c.Expect.Calls)
+	fsFault = c.Cfg.FSLoader
 	digest := sha1.New()
 	defer func() { res.Digest = fmt.Sprintf("%x", digest.Sum(nil)) }()
 	var first *obs
